@@ -70,6 +70,183 @@ fn traced<T>(f: impl FnOnce() -> T) -> (T, Vec<u8>) {
     (out, bytes)
 }
 
+/// Every authentication failure mode reachable by touching one field of one scheme: each component of each scheme's
+/// credentials material removed, emptied, replaced by garbage, and replaced by a wrong-but-well-formed value. Each is its
+/// own error path through ops/signature.rs, and each error path is a place where a diagnostic could print too much.
+fn failure_modes() -> Vec<(String, Req, Vec<u8>)> {
+    let mut out: Vec<(String, Req, Vec<u8>)> = Vec::new();
+    let host = "s3.example.com";
+    let scope = Scope::new(AK, &DATE[..8], "us-east-1", "s3");
+    let variants = |good: &str, wrong: &str| -> Vec<(&'static str, Option<String>)> { vec![("removed", None), ("empty", Some(String::new())), ("garbage", Some("\u{1}%zz <&> ;,=".chars().filter(|c| !c.is_control()).collect())), ("wrong", Some(wrong.to_owned())), ("doubled", Some(format!("{good}{good}")))] };
+    // ---- SigV4 header: fields of the Authorization header and the headers it relies on
+    for (method, body) in [("GET", &b""[..]), ("PUT", &b"hello"[..])] {
+        let mut good = Req::new(method, "/bkt/k").header("host", host);
+        if !body.is_empty() {
+            good = good.header("content-length", &body.len().to_string());
+        }
+        sign_v4_header(&mut good, SK, &scope, DATE, &sha256_hex(body), &[]);
+        let auth = good.get_header("authorization").unwrap();
+        let cred = scope.credential();
+        let sig = auth.rsplit("Signature=").next().unwrap().to_owned();
+        let fields: Vec<(&str, String, String)> = vec![
+            ("algorithm", "AWS4-HMAC-SHA256".into(), "AWS4-HMAC-SHA512".into()),
+            ("credential", cred.clone(), format!("{AK}/20240228/us-east-1/s3/aws4_request")),
+            ("credential-key", AK.into(), "AKIDUNKNOWN000000000".into()),
+            ("credential-region", "us-east-1".into(), "eu-west-1".into()),
+            ("credential-service", "/s3/".into(), "/sts/".into()),
+            ("credential-terminator", "aws4_request".into(), "aws5_request".into()),
+            ("signed-headers", "SignedHeaders=host;".into(), "SignedHeaders=x-absent;host;".into()),
+            ("signature", sig.clone(), "0".repeat(64)),
+        ];
+        for (fname, goodv, wrongv) in &fields {
+            for (vname, v) in variants(goodv, wrongv) {
+                let mut r = good.clone();
+                let newauth = match &v {
+                    None => auth.replacen(goodv.as_str(), "", 1),
+                    Some(x) => auth.replacen(goodv.as_str(), x, 1),
+                };
+                r.set_header("authorization", &newauth);
+                out.push((format!("v4-header/{method}/{fname}:{vname}"), r, body.to_vec()));
+            }
+        }
+        for (hname, wrongv) in [("x-amz-date", "20240301T120000Z"), ("x-amz-content-sha256", "UNSIGNED-PAYLOAD"), ("host", "other.example.com")] {
+            let goodv = good.get_header(hname).unwrap();
+            for (vname, v) in variants(&goodv, wrongv) {
+                let mut r = good.clone();
+                match v {
+                    None => r.remove_header(hname),
+                    Some(x) => r.set_header(hname, &x),
+                }
+                out.push((format!("v4-header/{method}/{hname}:{vname}"), r, body.to_vec()));
+            }
+        }
+        for extra in ["STREAMING-UNSIGNED-PAYLOAD-TRAILER", "STREAMING-AWS4-HMAC-SHA256-PAYLOAD-TRAILER", "STREAMING-AWS4-ECDSA-P256-SHA256-PAYLOAD"] {
+            let mut r = good.clone();
+            r.set_header("x-amz-content-sha256", extra);
+            out.push((format!("v4-header/{method}/x-amz-content-sha256:{extra}"), r, body.to_vec()));
+        }
+    }
+    // ---- SigV4 presigned: every X-Amz-* parameter
+    {
+        let mut good = Req::new("GET", "/bkt/k").header("host", host);
+        presign_v4(&mut good, SK, &scope, DATE, "900", &["host"]);
+        let parts: Vec<String> = good.query().unwrap().split('&').map(str::to_owned).collect();
+        for (i, p) in parts.iter().enumerate() {
+            let (n, v) = p.split_once('=').unwrap();
+            let wrong = match n {
+                "X-Amz-Algorithm" => "AWS4-HMAC-SHA512",
+                "X-Amz-Credential" => "AKIDUNKNOWN000000000%2F20240229%2Fus-east-1%2Fs3%2Faws4_request",
+                "X-Amz-Date" => "20240301T120000Z",
+                "X-Amz-Expires" => "0",
+                "X-Amz-SignedHeaders" => "host%3Bx-absent",
+                _ => "0000000000000000000000000000000000000000000000000000000000000000",
+            };
+            for (vname, nv) in variants(v, wrong) {
+                let mut ps = parts.clone();
+                match nv {
+                    None => {
+                        ps.remove(i);
+                    }
+                    Some(x) => ps[i] = format!("{n}={}", x.replace(' ', "%20").replace('&', "%26").replace('<', "%3C").replace('>', "%3E")),
+                }
+                let mut r = good.clone();
+                r.target = format!("/bkt/k?{}", ps.join("&"));
+                out.push((format!("v4-presigned/{n}:{vname}"), r, Vec::new()));
+            }
+        }
+    }
+    // ---- SigV2 header and presigned
+    {
+        let date_hdr = "Thu, 29 Feb 2024 12:00:00 GMT";
+        let mut good = Req::new("GET", "/bkt/k").header("host", host).header("date", date_hdr);
+        let sig = v2_signature(SK, &v2_string_to_sign(&good, date_hdr, None).unwrap());
+        good.headers.push(("authorization".into(), format!("AWS {AK}:{sig}").into_bytes()));
+        for (vname, auth) in [("no-colon", format!("AWS {AK}")), ("empty-key", format!("AWS :{sig}")), ("empty-signature", format!("AWS {AK}:")), ("unknown-key", format!("AWS AKIDUNKNOWN000000000:{sig}")), ("not-base64", format!("AWS {AK}:!!!not-base64!!!")), ("wrong-signature", format!("AWS {AK}:AAAAAAAAAAAAAAAAAAAAAAAAAAA=")), ("two-colons", format!("AWS {AK}:{sig}:{sig}")), ("lower-case-scheme", format!("aws {AK}:{sig}"))] {
+            let mut r = good.clone();
+            r.set_header("authorization", &auth);
+            out.push((format!("v2-header/authorization:{vname}"), r, Vec::new()));
+        }
+        for (vname, d) in [("removed", None), ("garbage", Some("yesterday")), ("far-past", Some("Mon, 01 Jan 1990 00:00:00 GMT"))] {
+            let mut r = good.clone();
+            match d {
+                None => r.remove_header("date"),
+                Some(x) => r.set_header("date", x),
+            }
+            out.push((format!("v2-header/date:{vname}"), r, Vec::new()));
+        }
+        let expires = 1_709_208_000i64 + 900;
+        let base = Req::new("GET", "/bkt/k").header("host", host);
+        let psig = uri_encode(&v2_signature(SK, &v2_string_to_sign(&base, &expires.to_string(), None).unwrap()), true);
+        for (vname, q) in [
+            ("valid", format!("AWSAccessKeyId={AK}&Expires={expires}&Signature={psig}")),
+            ("expired", format!("AWSAccessKeyId={AK}&Expires=1000000000&Signature={psig}")),
+            ("expires-garbage", format!("AWSAccessKeyId={AK}&Expires=soon&Signature={psig}")),
+            ("expires-removed", format!("AWSAccessKeyId={AK}&Signature={psig}")),
+            ("key-removed", format!("Expires={expires}&Signature={psig}")),
+            ("key-unknown", format!("AWSAccessKeyId=AKIDUNKNOWN000000000&Expires={expires}&Signature={psig}")),
+            ("signature-removed", format!("AWSAccessKeyId={AK}&Expires={expires}")),
+            ("signature-empty", format!("AWSAccessKeyId={AK}&Expires={expires}&Signature=")),
+            ("signature-wrong", format!("AWSAccessKeyId={AK}&Expires={expires}&Signature=AAAAAAAAAAAAAAAAAAAAAAAAAAA%3D")),
+            ("signature-bad-escape", format!("AWSAccessKeyId={AK}&Expires={expires}&Signature=%zz")),
+        ] {
+            let mut r = base.clone();
+            r.target = format!("/bkt/k?{q}");
+            out.push((format!("v2-presigned/{vname}"), r, Vec::new()));
+        }
+    }
+    // ---- POST form: every authentication field
+    {
+        let policy = r#"{"expiration":"2030-01-01T00:00:00Z","conditions":[{"bucket":"bkt"}]}"#;
+        let good = form::signed_form("k", policy, AK, SK, DATE, "us-east-1", b"hello", &[]);
+        for (field, wrong) in [
+            ("policy", "eyJleHBpcmF0aW9uIjoiMjAwMC0wMS0wMVQwMDowMDowMFoiLCJjb25kaXRpb25zIjpbXX0="),
+            ("x-amz-algorithm", "AWS4-HMAC-SHA512"),
+            ("x-amz-credential", "AKIDUNKNOWN000000000/20240229/us-east-1/s3/aws4_request"),
+            ("x-amz-date", "20240301T120000Z"),
+            ("x-amz-signature", "0000000000000000000000000000000000000000000000000000000000000000"),
+            ("key", ""),
+        ] {
+            let goodv = good.field(field).unwrap_or("").to_owned();
+            for (vname, v) in variants(&goodv, wrong) {
+                let mut f = good.clone();
+                match v {
+                    None => f.remove_field(field),
+                    Some(x) => f.set_field(field, &x),
+                }
+                let (r, body) = f.request("/bkt", host);
+                out.push((format!("post-form/{field}:{vname}"), r, body));
+            }
+        }
+    }
+    // ---- chunk-signed upload: seed, every chunk, declared length
+    {
+        let up = c08::upload("k", &[b"hello".to_vec(), b"world".to_vec()], Some(10), DATE);
+        let enc = c08::encoded(&up.chunks);
+        for (i, c) in up.chunks.iter().enumerate() {
+            let start: usize = up.chunks[..i].iter().map(|c| c.bytes().len()).sum();
+            let mut b = enc.clone();
+            b[start + c.header.len() - 4] ^= 1; // a digit of the chunk signature
+            out.push((format!("chunk-signed/chunk{i}-signature-digit"), up.req.clone(), b));
+            let mut b = enc.clone();
+            b[start] = b'z'; // the size field
+            out.push((format!("chunk-signed/chunk{i}-size-field"), up.req.clone(), b));
+        }
+        for (vname, v) in [("removed", None), ("too-small", Some("9")), ("garbage", Some("ten"))] {
+            let mut r = up.req.clone();
+            match v {
+                None => r.remove_header("x-amz-decoded-content-length"),
+                Some(x) => r.set_header("x-amz-decoded-content-length", x),
+            }
+            out.push((format!("chunk-signed/decoded-length:{vname}"), r, enc.clone()));
+        }
+        let mut r = up.req.clone();
+        let a = r.get_header("authorization").unwrap();
+        r.set_header("authorization", &format!("{}{}", &a[..a.len() - 1], if a.ends_with('0') { '1' } else { '0' }));
+        out.push(("chunk-signed/seed-signature-digit".into(), r, enc));
+    }
+    out
+}
+
 pub fn run(ctx: &Ctx) -> (Acc, Report) {
     let mut acc = ctx.acc();
     let needles = needles();
@@ -105,6 +282,12 @@ pub fn run(ctx: &Ctx) -> (Acc, Report) {
         cases.push(("ChunkSigned/corrupted-chunk".into(), up.req.clone(), broken));
         cases.push(("ChunkSigned/truncated".into(), up.req.clone(), enc[..enc.len() / 3].to_vec()));
     }
+    let n_modes = {
+        let modes = failure_modes();
+        let n = modes.len();
+        cases.extend(modes);
+        n
+    };
     let n_cases = cases.len();
     let mut cfgs: Vec<(String, SvcCfg)> = Vec::new();
     for auth in [true, false] {
@@ -167,7 +350,7 @@ pub fn run(ctx: &Ctx) -> (Acc, Report) {
                     }
                 }
             }
-            a.outcome(&format!("{} / {}", if leaked { "SECRET EMITTED" } else { "no secret in any output" }, out.verdict().split(':').next().unwrap_or("")));
+            a.outcome(&format!("{} / {}", if leaked { "SECRET EMITTED" } else { "no secret in any output" }, out.verdict()));
             if ci == 1 && cname.starts_with("auth=true None host=false None") {
                 a.sample(1, json!({"case": label, "config": cname, "trace_bytes": outputs[0].1.len(), "response": out.verdict()}));
             }
@@ -233,7 +416,7 @@ pub fn run(ctx: &Ctx) -> (Acc, Report) {
     }
     let rep = Report {
         level: "exploration",
-        rule: format!("{n_cases} requests (14 request classes of C05-C11 over {} SDK-encoded operations, POST forms valid / bad signature / bad policy, chunk-signed uploads valid / corrupted / truncated) x {n_cfgs} service configurations, each executed under a thread-local TRACE subscriber that renders every event and span field; searched: trace output, response head and body, call result, the request as the backend sees it, for the secret in 8 spellings (raw, AWS4-prefixed, base64, hex, HEX, byte-debug, URL-encoded, JSON-escaped). Plus Debug / pretty Debug / serde_json of SecretKey, Credentials, SimpleAuth and S3Request<Input> for each of the 96 operations with credentials attached, and the serde form of SecretKey (alone, in Option/Vec/tuple/struct/map) through a recording serializer of each class an impl can distinguish (human-readable, binary). Distinct by id; every case is non-trivial (trace output is non-empty, checked).", bases.len()),
+        rule: format!("{n_cases} requests (14 request classes of C05-C11 over {} SDK-encoded operations, POST forms valid / bad signature / bad policy, chunk-signed uploads valid / corrupted / truncated; plus {n_modes} authentication failure modes: every field of every scheme's credentials material removed / emptied / garbled / wrong-but-well-formed / doubled) x {n_cfgs} service configurations, each executed under a thread-local TRACE subscriber that renders every event and span field; searched: trace output, response head and body, call result, the request as the backend sees it, for the secret in 8 spellings (raw, AWS4-prefixed, base64, hex, HEX, byte-debug, URL-encoded, JSON-escaped). Plus Debug / pretty Debug / serde_json of SecretKey, Credentials, SimpleAuth and S3Request<Input> for each of the 96 operations with credentials attached, and the serde form of SecretKey (alone, in Option/Vec/tuple/struct/map) through a recording serializer of each class an impl can distinguish (human-readable, binary). Distinct by id; every case is non-trivial (trace output is non-empty, checked).", bases.len()),
         exhaustive: true,
         extra: json!({"requests": n_cases, "configurations": n_cfgs}),
         assumptions: vec!["formatting sites that are not on an enumerated path are not covered".into(), "derived key material (HMAC outputs) is not searched for; the statement is about secret access keys".into()],
